@@ -491,3 +491,16 @@ Proof.
   destruct (negb (xf_errno =? 0) && (xf_ret =? 0)) eqn:E4; [at_fin|]. at_norm.
   destruct (errclass CfgA xf_errno =? 0) eqn:E5; at_fin.
 Qed.
+
+(* ------------------------------------------------------------------ the fopen judgements of the token-passing fallback *)
+(* the statement behind each `mpifile->file = fopen (..)` of sc_io_read_at_all / sc_io_write_at_all (MPI without MPI I/O):
+   `errval` of a rank > 0 is `open_judge` (errno only if the stream is NULL), and the re-open of rank 0 ends in SC_ABORT exactly
+   when the stream is NULL - what `coll_prog` does with the reply [stream non-NULL; errno] of its K_FOPEN actions *)
+Lemma gen_fallback_judgements : forall file e,
+  oc_fallback_errval_read file e = open_judge (nz file) e /\ oc_fallback_errval_write file e = open_judge (nz file) e
+  /\ oc_fallback_reopen_bad_read file e = negb (nz file) /\ oc_fallback_reopen_bad_write file e = negb (nz file).
+Proof.
+  intros file e. unfold oc_fallback_errval_read, oc_fallback_errval_write, oc_fallback_reopen_bad_read,
+    oc_fallback_reopen_bad_write, open_judge, nz.
+  destruct (file =? 0); repeat split; reflexivity.
+Qed.
